@@ -508,6 +508,10 @@ func c08WG(r *Run, rng *Rng, w, c, id c08Geo, v5 bool, en int) {
 			}
 		}
 	}
+	if len(wg.Wavefronts) > (w.prod()+63)/64 {
+		// the dispatcher's latency table and the CU resource masks assume at most ceil(|wg|/64) wavefronts
+		r.Failf("C08.lanes.wfcount", line, "%d wavefronts for a work-group of %d work-items", len(wg.Wavefronts), w.prod())
+	}
 	if pop != c.prod() {
 		r.Failf("C08.lanes.mask", line, "%d lanes enabled for %d work-items", pop, c.prod())
 	}
